@@ -296,6 +296,10 @@ def run(ctx):
 
     d7_error_latch(db, rep)
     snapshot_slots(db, rep, "D5c-SNAPSHOT-SLOTS")
+    # D8: the executor a generated wrapper hands to a detached code object carries n and (for 2-D) m: emulation, the fallback
+    # of every wrapper, reads them from there (shared with C07 D1)
+    import importlib as _il
+    _il.import_module("rules.c07").wrapper_executor_fill(db, rep, "D8-WRAPPER-FILL")
 
 
 
